@@ -324,9 +324,9 @@ def py_items():
     h = parse(D + "heuristics.py")
     cm = find_func(h, "count_methods")
     isi = [n for n in ast.walk(cm) if isinstance(n, ast.Call) and u(n.func) == "isinstance"]
-    need(len(isi) == 1 and u(isi[0].args[0]) == "n" and isinstance(isi[0].args[1], ast.Tuple), "count_methods: isinstance")
+    need(len(isi) == 1 and len(isi[0].args) == 2 and u(isi[0].args[0]) == "n" and isinstance(isi[0].args[1], (ast.Tuple, ast.Attribute)), "count_methods: isinstance")
     types = []
-    for x in isi[0].args[1].elts:
+    for x in (isi[0].args[1].elts if isinstance(isi[0].args[1], ast.Tuple) else [isi[0].args[1]]):     # isinstance(n, (A, B)) or isinstance(n, A)
         need(isinstance(x, ast.Attribute) and u(x.value) == "ast", "count_methods: node types")
         types.append(x.attr)
     b = body_of(cm)
